@@ -391,6 +391,8 @@ theorem goal_auth (env : Env) (v : Verdicts) (s : Sess) (t : Tx) (l : List Byte)
       (finishStep (-1) i (runFunc env v .auth s l)).2 := by
   simp only [runFunc, smtpAuth]
   split
+  · exact finish_err_goal _ _ _ t t _ (by simp) hI (Or.inr hR) (by simp only [eventsFor]; exact other_run t)
+  split
   · rw [finish_ok _ _ _ rfl]
     refine goal_same s _ t _ hI hR ?_ ?_ <;> simp [SameTx, newState, eventsFor, Neutral]
   · rename_i code rc _
